@@ -888,6 +888,58 @@ func (c *Check) exhaustiveScans(rule string) {
 		walk(f.Body, 0, nil)
 	}
 	c.req(nLoops >= 20, rule, "scan-loops", token.NoPos, fmt.Sprintf("%d loops, %d break statements", nLoops, nBreaks))
+	// a scan that takes a callback hands it EVERY entry: a path through the loop body that does not call the callback
+	// ("skip entries whose context is paused") hides entries from every caller — the end blocker never sees them
+	nIter := 0
+	for _, f := range fs {
+		var opIdx []int
+		for i, pr := range f.Params {
+			if _, isFn := types.Unalias(pr.Type()).Underlying().(*types.Signature); isFn {
+				opIdx = append(opIdx, i)
+			}
+		}
+		if len(opIdx) != 1 || f.pkgName() != "keeper" {
+			continue
+		}
+		opAtom := fmt.Sprintf("P%d", opIdx[0])
+		// the loops in which some path calls the callback
+		loops := map[ast.Node]bool{}
+		for _, pa := range c.P.PathsOf(f) {
+			for _, ev := range pa.Events {
+				if ev.Kind == EvCall && ev.Loop != nil && ev.CI.name == "dyn" && ev.CI.fun != nil && ev.CI.fun.IsAt(opAtom) {
+					loops[ev.Loop] = true
+				}
+			}
+		}
+		if len(loops) == 0 {
+			continue
+		}
+		nIter++
+		skipped := token.NoPos
+		for _, pa := range c.P.PathsOf(f) {
+			if !pa.OK() {
+				continue
+			}
+			entered := map[ast.Node]bool{}
+			called := map[ast.Node]bool{}
+			for _, ev := range pa.Events {
+				if ev.Kind == EvLoop && loops[ev.Node] {
+					entered[ev.Node] = true
+				}
+				if ev.Kind == EvCall && ev.Loop != nil && ev.CI.name == "dyn" && ev.CI.fun != nil && ev.CI.fun.IsAt(opAtom) {
+					called[ev.Loop] = true
+				}
+			}
+			for l := range entered {
+				if !called[l] {
+					skipped = pa.RetPos
+				}
+			}
+		}
+		c.req(skipped == token.NoPos, rule, unitConstruct(f, "callback-on-every-entry"), f.Body.Pos(),
+			"every path through the scan's loop body hands the entry to the caller's callback"+condStr(skipped != token.NoPos, ": a path ending at "+c.pos(skipped)+" passes an entry over"))
+	}
+	c.Sites += nIter
 	// the other half: end-of-block, genesis and query code that hands a callback to one of the module's scans wants every
 	// record visited — no such callback answers "stop" (a handler given a stop result that always returns true ends the
 	// scan after the first pending request)
